@@ -613,7 +613,8 @@ MANIFEST_TEXT = {
                 "every run (order of the amount read and the liveness read in wait_for_read, wait_for_write, eof, "
                 "NCReadStream::wait/eof, NCWriteStream::wait): under every interleaving with the peer's last commits and its "
                 "drop a `true` verdict implies peer gone and fewer than need available, stays true, discards nothing; and one "
-                "completed call after the peer is gone gives `true`. A reordering in the source breaks `lake build`; the "
+                "completed call after the peer is gone gives `true` - in fact exactly `queued < need`, whatever was asked before "
+                "on the same stream (c04_exact_after_close; the real streams are asked sequences of waits on one handle). A reordering in the source breaks `lake build`; the "
                 "witness schedule is then replayed on real threads through the verif::point hook.",
         "design_ref": "DESIGN.md section 2, C04",
         "note": "PARTIAL for 'bounded number of waits': completion of a wait call (OS scheduling, 100 ms timeout) is assumed. "
@@ -681,7 +682,7 @@ MANIFEST_TEXT = {
                 "chunking of the input yields the one-shot result, state and tags (driveG_eq_oneShot, by induction over the "
                 "list of chunk sizes) and the generated work() on windows equals the loop on the histories; (2) Skip, Delay, "
                 "RtlSdrDecode, FirFilter (any arithmetic, any decimation), RationalResampler (incl. an output that fills in the "
-                "middle of the copies of one sample) and - in C11 - the FFT filter: for EVERY schedule of (readable, free) pairs the cumulative output is the closed form, no panic. "
+                "middle of the copies of one sample), CmaEqualizer (c08_cma: state and output are those of whole blocks of ntaps samples) and - in C11 - the FFT filter: for EVERY schedule of (readable, free) pairs the cumulative output is the closed form, no panic. "
                 "All other blocks: the real block is run drip-fed and greedy and must deliver bit-identical output (model-free), "
                 "modelled blocks are also compared call by call with the Lean model.",
         "design_ref": "DESIGN.md section 2, C08",
